@@ -57,3 +57,26 @@ func (s *AccStr) UnmarshalText(b []byte) error {
 	*s += AccStr(b) + "|"
 	return nil
 }
+
+// Types that implement both json.Marshaler and encoding.TextMarshaler with different results:
+// MarshalJSON always wins. Pointer receivers (like math/big.Int) and value receivers.
+type BothP struct{ N int }
+
+func (b *BothP) MarshalJSON() ([]byte, error) { return []byte(fmt.Sprintf(`{"json":%d}`, b.N)), nil }
+func (b *BothP) MarshalText() ([]byte, error) { return []byte(fmt.Sprintf("text-%d", b.N)), nil }
+
+type BothV struct{ N int }
+
+func (b BothV) MarshalJSON() ([]byte, error) { return []byte(fmt.Sprintf(`[%d]`, b.N)), nil }
+func (b BothV) MarshalText() ([]byte, error) { return []byte(fmt.Sprintf("text-%d", b.N)), nil }
+
+// BothMixed: MarshalJSON on the value, MarshalText on the pointer, and the other way round.
+type BothJV struct{ N int }
+
+func (b BothJV) MarshalJSON() ([]byte, error)  { return []byte(fmt.Sprintf(`%d`, b.N)), nil }
+func (b *BothJV) MarshalText() ([]byte, error) { return []byte("text"), nil }
+
+type BothTV struct{ N int }
+
+func (b *BothTV) MarshalJSON() ([]byte, error) { return []byte(fmt.Sprintf(`%d`, b.N)), nil }
+func (b BothTV) MarshalText() ([]byte, error)  { return []byte("text"), nil }
